@@ -4,7 +4,7 @@ Require Import ExtrOcamlBasic.
 Extraction Language OCaml.
 Extraction "model.ml"
   N.add N.mul N.div_eucl
-  respond parse_chunk
-  items_of expects_of ev_statuses_of evs_of evexpects_of
+  respond respond_report report_round nothing_to_report parse_chunk
+  items_of report_items_of expect_of_item expects_of ev_statuses_of evs_of evexpects_of
   c14_exactly_once c14_events_once c14_fits only_last_ends last_supp c14_holds
   c14_partial all_fit cfg_ok.
